@@ -1,5 +1,2 @@
-import Arp.Model.Arith
-import Arp.Spec.Ops
-namespace Arp.C10
-theorem smoke : (1:Nat) + 1 = 2 := rfl
-end Arp.C10
+import Arp.Props.C10Scale
+/-! # C10 — trunc, round, scale, abs, neg (scale/abs/neg in `C10Scale.lean`, trunc/round in `C10TruncRound.lean`) -/
